@@ -79,6 +79,9 @@ var splitClients = []splitClient{
 	{Name: "auth-none-pref-first", Kind: "auth", Pref: "first"},
 	{Name: "auth-many-then-A", Kind: "auth", Extras: append(splitFillers(24), "A")},
 	{Name: "auth-many-then-B-pref-before-extras", Kind: "auth", Extras: append(splitFillers(40), "B"), Pref: "before-extras"},
+	// a peer that breaks the handshake off with a fatal alert (it does not trust the certificate the server
+	// presents for a fetch): the listener sees a network-level "remote error"; everybody after it must still be served
+	{Name: "fetch-peer-sends-fatal-alert", Kind: "fetch-alert", Extras: nil},
 	{Name: "auth-none", Kind: "auth", Extras: nil},
 	{Name: "auth-A", Kind: "auth", Extras: []string{"A"}},
 	{Name: "auth-B-A", Kind: "auth", Extras: []string{"B", "A"}},
@@ -254,7 +257,7 @@ func runSplitCase(c *engine.Ctx, s *world.Server, node *world.Node, sc splitCase
 			}
 		case "base":
 			cfg = &tls.Config{NextProtos: cl.Extras, InsecureSkipVerify: true, MinVersion: tls.VersionTLS12}
-		case "fetch":
+		case "fetch", "fetch-alert":
 			n := world.MustNode(false, "")
 			req, _ := n.FetchRequest()
 			cs := world.ClientSpec{Protos: world.FetchProtos(req)}
@@ -264,6 +267,9 @@ func runSplitCase(c *engine.Ctx, s *world.Server, node *world.Node, sc splitCase
 			der := world.MintSelfSigned(k, world.LeafSpec{SubjectKeyID: k.Pkix, DNSNames: []string{nodeenrollment.CommonDnsName}, NotBefore: now.Add(-time.Minute), NotAfter: now.Add(time.Minute)})
 			cert := &tls.Certificate{Certificate: [][]byte{der}, PrivateKey: k.Priv}
 			cfg.GetClientCertificate = func(*tls.CertificateRequestInfo) (*tls.Certificate, error) { return cert, nil }
+			if cl.Kind == "fetch-alert" {
+				cfg.InsecureSkipVerify, cfg.ServerName = false, "not-the-name-in-the-server-certificate.example"
+			}
 		}
 		raw, err := net.Dial("tcp", lw.Addr)
 		if err != nil {
